@@ -538,6 +538,15 @@ class TypeGen:
             bases = [lname, rname]
         return bases, redeclare(inherited, 0.3)
 
+    def nullable_fixed_tuple(self):
+        """Optional[Tuple[Optional[A], B, ...]]: a nullable position holding a fixed-shape tuple with nullable members."""
+        r = self.rng
+        def member():
+            m = r.choice([("float",), ("int",), ("str",), ("date",), ("decimal",), ("uuid",)])
+            return ("opt", m, "Optional") if r.random() < 0.7 else m
+        inner = ("tuple", r.choice(["Tuple", "tuple"]), [member() for _ in range(r.randint(1, 3))])
+        return ("opt", inner, "Optional")
+
     def nt_engine_dataclass(self, mixin=None):
         """one point of the lattice {Config.namedtuple_as_dict unset / True} x {field engine none / as_list / as_dict}
         with the NamedTuple at every kind of position (direct, Optional, list element, dict value, tuple member)."""
